@@ -285,7 +285,8 @@ func (db *Database) SearchUniversal(query string, options SearchOptions) []Searc
 	// If no terms after processing, try fuzzy search as fallback
 	if len(terms) == 0 {
 		if options.UseFuzzy {
-			return db.performFuzzySearch(query, options)
+			// the fallback collects up to 2*Limit candidates: never return more than the limit
+			return db.limitResults(db.performFuzzySearch(query, options), options.Limit)
 		}
 		return nil
 	}
@@ -303,7 +304,8 @@ func (db *Database) SearchUniversal(query string, options SearchOptions) []Searc
 	// If no BM25F results, try fuzzy search as fallback for typos
 	if len(scores) == 0 {
 		if options.UseFuzzy {
-			return db.performFuzzySearch(query, options)
+			// the fallback collects up to 2*Limit candidates: never return more than the limit
+			return db.limitResults(db.performFuzzySearch(query, options), options.Limit)
 		}
 		return nil
 	}
